@@ -138,6 +138,12 @@ def read_definitions(
     _direct: set[CompositeType] = set()
     _transitive: set[CompositeType] = set()
     _file_pool: dict[Path, ReadableDSDLFile] = {}
+    # A target may also be found among the lookup definitions; make sure one file is represented by one object,
+    # otherwise it would be processed (and its print directives evaluated) more than once.
+    targets_by_path = {d.file_path: d for d in target_definitions if isinstance(d, ReadableDSDLFile)}
+    lookup_definitions = [
+        targets_by_path.get(d.file_path, d) if isinstance(d, ReadableDSDLFile) else d for d in lookup_definitions
+    ]
     _read_definitions(
         target_definitions,
         lookup_definitions,
